@@ -1,12 +1,17 @@
 import Replicon.Proofs.ConfirmHistory
 import Replicon.Proofs.MutateTicks
+import Replicon.Proofs.Client
 /-
 C12 — Tick-confirmation queries agree with what was actually received.
 
 Model: `Model/Tick.lean` (RepliconTick), `Model/ConfirmHistory.lean`, `Model/MutateTicks.lean`;
 specification: `Model/HistorySpec.lean` (a plain set of confirmed *absolute* ticks; the
 implementation only sees residues modulo 2^32, so wrap-around of the counter is covered by
-every statement below).
+every statement below).  End to end: `Model/Client.lean` (`apply_mutate_messages`: the tracker
+is fed by `trackOne`, once per mutate message that is *applied*, never by one that is only
+buffered); the tie is the lock-step comparison of the `MutateTickReceived` events of every
+client frame with the model's (`sys`, `sys_split` with tracking on) and the oracle "a reported
+tick's every mutate message was applied (acknowledged) by then, and it is reported once".
 -/
 namespace Replicon.C12
 open Replicon
@@ -132,5 +137,100 @@ example : NearRun (SetSpec.new 4294967290) [4294967291, 4294967296 + 60, 4294967
 example : (runConfirms (ConfirmHistory.new 1) [2, 66]).map (fun h => (h.mask.toNat, h.last, h.contains 65))
     = .ok (1, 66, false) := by decide
 example : (ConfirmHistory.new 100).containsAny 37 100 = .ok true := by decide
+
+/-! ### end to end: when the client reports a tick as fully received -/
+
+open Replicon.Cli in
+theorem trackFold_notified (l : List Mutate) (c : Client) :
+    ∀ t ∈ (l.foldl trackOne c).notified, t ∈ c.notified ∨ ∃ m ∈ l, m.tick = t := by
+  induction l generalizing c with
+  | nil => intro t ht; left; exact ht
+  | cons x xs ih =>
+    intro t ht
+    rw [List.foldl_cons] at ht
+    rcases ih _ t ht with h | ⟨m, hm, rfl⟩
+    · unfold trackOne at h
+      cases hmt : c.mutTicks with
+      | none => rw [hmt] at h; left; exact h
+      | some s =>
+        rw [hmt] at h
+        simp only at h
+        cases hc : s.confirm x.tick x.count with
+        | ok r =>
+          rw [hc] at h
+          simp only at h
+          by_cases hd : r.2 = true
+          · rw [if_pos hd] at h
+            rcases List.mem_append.mp h with h | h
+            · left; exact h
+            · right; exact ⟨x, List.mem_cons_self, (List.mem_singleton.mp h).symm⟩
+          · rw [if_neg hd] at h; left; exact h
+        | err => rw [hc] at h; left; exact h
+        | panic _ => rw [hc] at h; left; exact h
+    · right; exact ⟨m, List.mem_cons_of_mem _ hm, rfl⟩
+
+open Replicon.Cli in
+theorem foldl_applyMutate_notified (l : List Mutate) (c : Client) :
+    (l.foldl applyMutate c).notified = c.notified ∧ (l.foldl applyMutate c).mutTicks = c.mutTicks := by
+  induction l generalizing c with
+  | nil => exact ⟨rfl, rfl⟩
+  | cons x xs ih =>
+    rw [List.foldl_cons]
+    obtain ⟨h1, h2⟩ := ih (applyMutate c x)
+    rw [h1, h2]
+    obtain ⟨_, _, _, _, hn, hm⟩ := applyMutate_same c x
+    exact ⟨hn, hm⟩
+
+/-- A tick is reported as fully received in a frame only if a mutate message of that tick was
+*applied* in that frame: messages that are merely buffered (their update message has not been
+applied yet) are never counted. -/
+theorem C12_reported_only_when_applied (c : Cli.Client) :
+    ∀ t ∈ (Cli.applyBuffered c).notified, t ∈ c.notified ∨
+      ∃ m ∈ c.buffered, ¬ (m.updateTick > c.updateTick) ∧ m.tick = t := by
+  intro t ht
+  unfold Cli.applyBuffered at ht
+  simp only at ht
+  rcases trackFold_notified _ _ t ht with h | ⟨m, hm, rfl⟩
+  · left
+    rw [(foldl_applyMutate_notified _ _).1] at h
+    exact h
+  · right
+    rw [List.mem_filter] at hm
+    exact ⟨m, hm.1, by simpa using hm.2, rfl⟩
+
+/-- … and a frame in which nothing is applicable neither feeds the tracker nor reports anything. -/
+theorem C12_buffered_not_counted (c : Cli.Client) (h : ∀ m ∈ c.buffered, m.updateTick > c.updateTick) :
+    (Cli.applyBuffered c).mutTicks = c.mutTicks ∧ (Cli.applyBuffered c).notified = c.notified := by
+  unfold Cli.applyBuffered
+  have hr : (c.buffered.filter fun m => !(m.updateTick > c.updateTick)) = [] := by
+    rw [List.filter_eq_nil_iff]
+    intro m hm
+    simp [h m hm]
+  simp only [hr, List.foldl_nil]
+  trivial
+
+/-- The report itself is the tracker's verdict (`C12_tracker_confirm_result`: the number of
+confirmations equals the announced non-zero count, and the tick is still in the window). -/
+theorem C12_report_is_tracker_verdict (c : Cli.Client) (m : Cli.Mutate) (s : MutateTicks) (hs : c.mutTicks = some s) :
+    (∀ s' d, s.confirm m.tick m.count = .ok (s', d) →
+      (Cli.trackOne c m).mutTicks = some s' ∧
+      (Cli.trackOne c m).notified = if d then c.notified ++ [m.tick] else c.notified) := by
+  intro s' d h
+  unfold Cli.trackOne
+  rw [hs]
+  simp only [h]
+  trivial
+
+/-- Non-vacuity: a tick split into two mutate messages; the first arrives before the update
+message it depends on and waits; nothing is reported until both were applied. -/
+example :
+    let m1 : Cli.Mutate := { updateTick := 3, tick := 4, index := 0, ents := [], count := 2 }
+    let m2 : Cli.Mutate := { updateTick := 3, tick := 4, index := 1, ents := [], count := 2 }
+    let c0 : Cli.Client := { connected := true, lastNotDisconnected := true, updateTick := 2, mutTicks := some MutateTicks.default }
+    let c1 := Cli.frame c0 [] [m1]
+    let c2 := Cli.frame c1 [{ tick := 3 }] []
+    let c3 := Cli.frame c2 [] [m2]
+    (c1.notified, c1.acks, c2.notified, c2.acks, c3.notified, c3.acks) = ([], [], [], [0], [4], [1]) := by
+  decide
 
 end Replicon.C12
